@@ -54,6 +54,10 @@ def run(chk, args):
                 scen.append({"tid": tid, "probe": d, "shape": p, "seed": rng.randrange(1 << 30)})
             else:
                 scen.append({"tid": tid, "base": BASES[k % len(BASES)], "shape": p, "seed": rng.randrange(1 << 30)})
+            # every fourth derivation: an intermediate variable in the translation and a new parameter that keeps the
+            # (dispersible) type of the one it replaces, so that the dispersity mean over a new parameter is taken
+            if k % 4 == 1:
+                scen[-1]["directed"] = "intermediate+dispersed"
     work = vlib.scratch("c16")
     try:
         reqs = [{"workdir": os.path.join(work, "m%d" % k), "scenarios": part} for k, part in enumerate(split(scen, vlib.NCPU))]
